@@ -189,6 +189,11 @@ def aggregate(prop, tier, seed, mod, records, problems, wall, extra_cov=None):
         r, v = hits[0]
         print(f"KNOWN-FINDING: property={prop} {mech}: {known.describe(mech, entries)} "
               f"[observed in {len(hits)} case(s), e.g. case {r['index']}: {v['detail'][:160]}]")
+    # every OPEN finding listed for this property gets its line, also when this run's workload did not meet it (some are rare
+    # enough to show only in the thorough tier)
+    for e in entries:
+        if e.get("property") == prop and e.get("status") == "open" and e.get("mechanism") not in knownhits:
+            print(f"KNOWN-FINDING: property={prop} {e['mechanism']}: {str(e.get('description', ''))[:200]} [listed; not met by this run's workload]")
     rc = 0
     if unknown:
         rdir = os.path.join(VERIF, "replays", prop)
